@@ -4,8 +4,14 @@ use super::{EntryWeakPtr, ResourceWrapper, StatNode, TokenResult};
 use crate::utils::time::curr_time_millis;
 use crate::Error;
 use std::collections::HashMap;
+#[cfg(not(sentinel_verif))]
 use std::sync::Arc;
+#[cfg(sentinel_verif)]
+use sentinel_verif_rt::sync::Arc;
+#[cfg(not(sentinel_verif))]
 use std::sync::RwLock;
+#[cfg(sentinel_verif)]
+use sentinel_verif_rt::sync::RwLock;
 pub type ContextPtr = Arc<RwLock<EntryContext>>;
 
 #[derive(Default)]
